@@ -90,6 +90,7 @@ inductive MapOp (K V Q : Type) where
   | fmt (kind : FmtKind)
   | drop | forget
   | with_capacity (c : Nat)
+  | serde (dst : Nat)      -- serialize, then deserialize the token stream into register `dst`
 
 inductive SetOp (K Q : Type) where
   | insert (k : K)
@@ -112,6 +113,7 @@ inductive SetOp (K Q : Type) where
   | sub (other dst : Nat)
   | fmt (kind : FmtKind)
   | drop | forget
+  | serde (dst : Nat)
 
 inductive Op (K V Q : Type) where
   | map (reg : Nat) (op : MapOp K V Q)
@@ -501,6 +503,7 @@ def stepMapOp (R : Render K V) (other : Nat → Raw K V) : MapOp K V Q → SM K 
     let cap ← getCap
     assertP (c == cap) .capacity
     pure .unit
+  | .serde _ => pure .unit               -- handled at the system level
 
 end
 end Micromap
